@@ -42,7 +42,7 @@ impl Property for C13 {
     type Case = Case;
     const ID: &'static str = "C13";
     fn rule() -> &'static str {
-        "a case is a mesh (closed: boxes, prisms, octahedra, icospheres, tori; open: height-field grids, L-shapes, tubes, fans; shuffled numbering, any pose; one case in a few thousand is a height field of 260..330 squared vertices, checked with the linear-time clauses only) with a plane of any normal whose offset is a fraction of the mesh extent (inside, grazing, missing) or passes exactly through a vertex (robustness family: only no-panic and on-plane/on-surface are required), and a second isometry for the commutation clause. Generic planes keep every vertex at least 1e-4 of the mesh size from the plane. Oracle: harness face-plane crossing segments (each exactly once), exhaustive distance to the surface, closedness on watertight meshes, one loop with the polygon perimeter on convex solids, side/area bookkeeping for splits. Non-trivial: plane normal not axis-aligned in the mesh frame and at least 4 faces cut. Distinct = distinct canonical JSON."
+        "a case is a mesh (closed: boxes, prisms, octahedra, icospheres, tori; open: height-field grids, L-shapes, tubes, fans; shuffled numbering, any pose, one in five with one to three faces wound against their neighbours; one case in a few thousand is a height field of 260..330 squared vertices, checked with the linear-time clauses only) with a plane of any normal whose offset is a fraction of the mesh extent (inside, grazing, missing) or passes exactly through a vertex (robustness family: only no-panic and on-plane/on-surface are required), and a second isometry for the commutation clause. Generic planes keep every vertex at least 1e-4 of the mesh size from the plane. Oracle: harness face-plane crossing segments (each exactly once), exhaustive distance to the surface, closedness on watertight meshes, one loop with the polygon perimeter on convex solids, side/area bookkeeping for splits. Non-trivial: plane normal not axis-aligned in the mesh frame and at least 4 faces cut. Distinct = distinct canonical JSON."
     }
     fn cases(t: Tier) -> u32 {
         t.pick(240_000, 1_500_000)
@@ -53,7 +53,7 @@ impl Property for C13 {
         Some(std::time::Duration::from_secs(20))
     }
     fn expected_labels() -> Vec<&'static str> {
-        vec!["closed_mesh", "open_mesh", "convex", "miss", "cut", "through_vertex", "split_pair", "split_one_side", "two_loops", "commutes", "exact_in_plane_edge", "exact_convex_loop", "through_saddle_vertex", "through_vertex_closed_checked", "mesh_above_65536_vertices"]
+        vec!["closed_mesh", "open_mesh", "convex", "miss", "cut", "through_vertex", "split_pair", "split_one_side", "two_loops", "commutes", "exact_in_plane_edge", "exact_convex_loop", "through_saddle_vertex", "through_vertex_closed_checked", "mesh_above_65536_vertices", "faces_wound_against_neighbours"]
     }
     fn strategy(t: Tier) -> BoxedStrategy<Case> {
         let gmax = t.pick(8, 14);
@@ -64,6 +64,13 @@ impl Property for C13 {
         (clean_mesh(kind, 10.0), unit3(), prop_oneof![8 => unif(-0.2, 1.2).prop_map(Offset::Fraction), 1 => any::<u16>().prop_map(Offset::ThroughVertex), 1 => (any::<u16>(), any::<u16>(), any::<u16>()).prop_map(|(a, b, c)| Offset::ThroughThree(a, b, c)), 1 => (any::<u16>(), unif(0.0, 3.1416)).prop_map(|(e, a)| Offset::ThroughEdge(e, a)), 1 => (any::<u16>(), prop_oneof![1 => Just(0.0), 2 => unif(0.0, 0.5)], unif(0.0, 6.2832)).prop_map(|(i, tilt, az)| Offset::TangentAtVertex(i, tilt, az))], iso3(10.0), any::<bool>())
             .prop_map(|(mut mesh, normal, offset, t, solid)| {
                 mesh.flip_all = false;
+                // one mesh in five has one to three faces wound against their neighbours (the face list says nothing about
+                // which way a face is wound: sections and splits are about geometry); never flagged solid
+                let s = mesh.shuffle;
+                if s % 5 == 0 && s != 0 {
+                    mesh.flips = (0..1 + (s >> 8) % 3).map(|k| ((s >> (16 + 12 * k)) & 0xffff) as u16).collect();
+                }
+                let solid = solid && mesh.flips.is_empty();
                 Case { mesh, normal, offset, t, solid }
             })
             .boxed()
@@ -192,6 +199,7 @@ fn check(case: &Case) -> Verdict {
     let mesh = bm.mesh(case.solid && bm.topo.closed);
     cx.label_if(case.solid && bm.topo.closed, "solid_flag");
     cx.label(if bm.topo.closed { "closed_mesh" } else { "open_mesh" });
+    cx.label_if(!case.mesh.flips.is_empty(), "faces_wound_against_neighbours");
     let curve_tol = 1e-9 * size;
     // hazard class: the section of an open mesh that ends on the mesh boundary (an open chain of crossings)
     let open_chain = {
